@@ -61,7 +61,12 @@ fn read_path<'a>(scanner: &mut Scanner<'a>) -> ParseResult<Option<&'a str>> {
 pub fn parse<'a>(scanner: &mut Scanner<'a>) -> ParseResult<SmallMap<&'a str, Vec<&'a str>>> {
     let mut result: SmallMap<&'a str, Vec<&'a str>> = SmallMap::default();
     loop {
-        while matches!(scanner.peek(), ' ' | '\n') {
+        // Skip blank lines, including ones made up of spaces and line continuations.
+        loop {
+            skip_spaces(scanner)?;
+            if scanner.peek() != '\n' {
+                break;
+            }
             scanner.next();
         }
         let target = match read_path(scanner)? {
